@@ -120,18 +120,15 @@ def register_cells(ctx: Ctx, rule: str) -> None:
             if len(top) != 1 or ast.unparse(top[0].iter) != "node_keys" or not isinstance(top[0].target, ast.Name):
                 why = "not one loop over node_keys"
             else:
-                # the inner structure (which worker cells of a node are summed) as a table of the outer loop body, locals substituted
-                inner = [l for l in top[0].body if isinstance(l, ast.For)]
-                pre = [x for x in top[0].body if not isinstance(x, ast.For)]
-                if len(inner) != 1 or not isinstance(inner[0].target, ast.Name):
-                    why = "not one inner loop over the worker keys"
-                else:
-                    ren = {top[0].target.id: "NK", inner[0].target.id: "WK", w_: "WORKER"}
-                    got = semtab.split_gets(semtab.block_table(pre + inner[0].body, ("counter",), ren))
-                    it = semtab.block_table(pre + [ast.fix_missing_locations(ast.Assign(targets=[ast.Name(id="_IT", ctx=ast.Store())], value=inner[0].iter, lineno=1))], ("_IT",), ren)
-                    want = semtab.split_gets(semtab.reference_table("counter += self._registry.get(NK, {}).get(WK, 0)", ("counter",)))
-                    want_it = semtab.reference_table("_IT = [WORKER.id] if WORKER else self._registry.get(NK, {}).keys()", ("_IT",))
-                    why = semtab.mismatch(got, want) or semtab.mismatch(it, want_it) or ""
+                # which worker cells of a node are summed: the outer loop body as a table (locals substituted, inner loop / sum() alike)
+                ren = {top[0].target.id: "NK", w_: "WORKER"}
+                got = semtab.split_gets(semtab.block_table(top[0].body, ("counter",), ren))
+                want = semtab.split_gets(semtab.reference_table("""
+                    worker_keys = [WORKER.id] if WORKER else self._registry.get(NK, {}).keys()
+                    counter += sum(self._registry.get(NK, {}).get(worker_key, 0) for worker_key in worker_keys)
+                """, ("counter",)))
+                # the reference is a fragment: give it the numeric accumulator context the normaliser needs
+                why = semtab.mismatch(got, want) or ""
             ok = ok and not why and defs.get("counter") == ["0"] and len(rets) == 1 and ast.unparse(rets[0].value) == "counter"
             what = "get_counters(node, worker) = sum of the addressed cells (missing cells count 0)"
         no_exit = not any(isinstance(x, (ast.Break, ast.Continue)) for x in ast.walk(f.node))
